@@ -25,7 +25,8 @@ for k, v in res.items():
             shutil.copy(m.group(1), dst)
             try:
                 rep = json.load(open(dst))
-                if rep.get("kind", "").startswith("oracle") and rep.get("lines"):
+                # (a verdict that blames the GENERATOR is a defect of the machinery, never corpus material - DESIGN 11.16)
+                if rep.get("kind", "").startswith("oracle") and rep.get("lines") and "generator" not in str(rep.get("verdict", "")):
                     cpath = os.path.join(HERE, "corpus", k + ".txt")
                     have = open(cpath).read() if os.path.exists(cpath) else ""
                     entry = ((", ".join(rep["cfgs"]) + " || ") if rep.get("cfgs") else "") + rep["lines"][0]
